@@ -134,18 +134,19 @@ type prioExec struct {
 	abort     chan struct{}
 	wg        sync.WaitGroup
 
-	outClosed        bool
-	errClosed        bool
-	termSeen         bool
-	stopIssued       bool
-	stopRet          atomic.Bool
-	gracefulOn       bool
-	gracefulRt       atomic.Bool
-	gracefulSeen     bool
-	censusAtGraceful bool
-	faultSeen        bool
-	failed           bool
-	ctls             []*ctlCall
+	outClosed           bool
+	errClosed           bool
+	termSeen            bool
+	stopIssued          bool
+	stopRet             atomic.Bool
+	runningAtStopReturn atomic.Int64
+	gracefulOn          bool
+	gracefulRt          atomic.Bool
+	gracefulSeen        bool
+	censusAtGraceful    bool
+	faultSeen           bool
+	failed              bool
+	ctls                []*ctlCall
 
 	mon *divMonitor
 }
